@@ -164,12 +164,13 @@ func (c *Ctx) Add(name string, n int64) { c.Res.Counters[name] += n }
 
 // Violate reports a refuting observation for the current case.  Known findings are
 // filtered by the committed classifiers; everything else becomes a VIOLATION.
-func (c *Ctx) Violate(class string, expected, observed any, note string) {
+func (c *Ctx) Violate(class string, expected, observed any, note string) bool {
 	v := &Violation{Case: c.cur, Class: class, Expected: expected, Observed: observed, Note: note}
-	c.ViolateV(v)
+	return c.ViolateV(v)
 }
 
-func (c *Ctx) ViolateV(v *Violation) {
+// ViolateV reports v; it returns false when an open known finding explains it.
+func (c *Ctx) ViolateV(v *Violation) bool {
 	if v.Case == nil {
 		v.Case = c.cur
 	}
@@ -186,7 +187,7 @@ func (c *Ctx) ViolateV(v *Violation) {
 		if c.Replay {
 			fmt.Printf("known finding %s: %s\n  case: %s\n  expected: %v\n  observed: %v\n  %s\n", id, v.Class, v.Case.Brief(), v.Expected, v.Observed, v.Note)
 		}
-		return
+		return false
 	}
 	c.Res.ViolationCount++
 	c.Res.ByClass[v.Class]++
@@ -196,6 +197,7 @@ func (c *Ctx) ViolateV(v *Violation) {
 	if c.Replay {
 		fmt.Printf("violation: %s\n  case: %s\n  expected: %v\n  observed: %v\n  %s\n", v.Class, v.Case.Brief(), v.Expected, v.Observed, v.Note)
 	}
+	return true
 }
 
 // Inconclusive records a part of the run that could not be decided.
